@@ -53,7 +53,8 @@ def readers_alive_together(p, expect):
 
     f = framing.build_frame(p)
     opts = [1, 2, 0, True, 2, 1]
-    readers = [RTCMReader(io.BytesIO(f + f), labelmsm=lm, quitonerror=2, validate=k % 2) for k, lm in enumerate(opts)]
+    # keyword and positional spelling (documented order: datastream, validate, quitonerror, labelmsm, ...)
+    readers = [RTCMReader(io.BytesIO(f + f), labelmsm=lm, quitonerror=2, validate=k % 2) if k % 3 else RTCMReader(io.BytesIO(f + f), k % 2, 2, lm) for k, lm in enumerate(opts)]
     for lm, rdr in zip(opts, readers):
         got = list(rdr)
         if len(got) != 2:
